@@ -119,6 +119,27 @@ class Builder:
                 pass
         return None
 
+    def instantiate(self, rc):
+        """a well-formed instance of a framework class (built by its real constructor where that is cheap), so that fields
+        the model does not mention hold their constructor defaults instead of being absent; the model's fields are then
+        written over it.  Falls back to a bare object."""
+        try:
+            import flumine.order.order as oo
+            import flumine.order.ordertype as ot
+            import flumine.order.trade as tr
+
+            if issubclass(rc, oo.BaseOrder):
+                from unittest import mock
+
+                strategy = mock.Mock()
+                strategy.name_hash = "abcdefghijklm"
+                trade = tr.Trade("1.1", 1, 0.0, strategy)
+                cls_ot = ot.BetdaqLimitOrder if rc is oo.BetdaqOrder and hasattr(ot, "BetdaqLimitOrder") else ot.LimitOrder
+                return rc(trade, "BACK", cls_ot(2.0, 2.0))
+        except Exception:
+            pass
+        return object.__new__(rc)
+
     def build(self, path):
         """value at an access path of the pre-state"""
         pre = self.pre
@@ -147,7 +168,7 @@ class Builder:
                             obj[f] = v
                 return obj
             rc = self.real_class(cls, path)
-            obj = object.__new__(rc) if rc is not None else Stub(cls)
+            obj = self.instantiate(rc) if rc is not None else Stub(cls)
             self.objs[key] = obj
             fields = sorted({k[len(path) + 1 :].split(".")[0].split("[")[0].replace("?none", "").replace("@ref", "").replace("@len", "") for k in pre if k.startswith(path + ".")})
             overrides = {}
@@ -217,6 +238,12 @@ def main():
         ns = load_sidecars()
     except Exception as e:
         out(dict(confirmed=False, note="setup failed: %r" % e, tb=traceback.format_exc()[-800:]))
+    # the logging configuration is an input (A5): when the model answered isEnabledFor(..) False, logging is switched off
+    le = (rec.get("env") or {}).get("logging_enabled") or []
+    if le and not any(le):
+        import logging
+
+        logging.disable(logging.CRITICAL)
     fn = rec.get("function") or ""
     clause = rec.get("violated_clause")
     kind = rec.get("kind")
@@ -254,6 +281,24 @@ def main():
             call = lambda: f(**args)
     except Exception as e:
         out(dict(confirmed=False, note="cannot resolve %s: %r" % (fn, e)))
+    # parameters the function never reads have no observable: take the model's argument value (or a placeholder)
+    try:
+        import inspect
+
+        target = member.fget if ("." in name and isinstance(member, property)) else (member.__func__ if ("." in name and isinstance(member, (staticmethod, classmethod))) else (member if "." in name else f))
+        for pn, pv in inspect.signature(target).parameters.items():
+            if pn in args or pv.default is not inspect.Parameter.empty or pv.kind in (pv.VAR_POSITIONAL, pv.VAR_KEYWORD):
+                continue
+            mv = (rec.get("model_args") or {}).get(pn + "_0")
+            if mv is None:
+                args[pn] = "x"
+            elif str(mv) in b.atoms:
+                args[pn] = b.atom(mv)
+            else:
+                args[pn] = num(mv) if num(mv) is not None else "x"
+            env[pn] = args[pn]
+    except Exception:
+        pass
     # pre-evaluate old(...) sub-expressions
     import native_dsl
     rew = OldRewriter()
